@@ -227,14 +227,79 @@ def build_steps(rng, recs, delim, queries, slot=0, p_incremental=0.35):
     order = list(recs)
     rng.shuffle(order)
     first, rest = order[:k], order[k:]
+    # merge histories: some of the initial records start with only a part of their synonyms and acquire the
+    # rest later through add_record / add_prefix(merge=True), after the converter has been queried
+    later = [("add", r) for r in rest]
+    thinned = []
+    for r in first:
+        if (r["ps"] or r["us"]) and rng.random() < 0.6:
+            keep_ps = [x for x in r["ps"] if rng.random() < 0.4]
+            keep_us = [x for x in r["us"] if rng.random() < 0.4]
+            drop_ps = [x for x in r["ps"] if x not in keep_ps]
+            drop_us = [x for x in r["us"] if x not in keep_us]
+            thinned.append(dict(r, ps=keep_ps, us=keep_us))
+            ext = {"p": rng.choice([r["p"]] + keep_ps), "u": rng.choice([r["u"]] + keep_us), "ps": drop_ps, "us": drop_us,
+                   "pat": None}
+            later.append(("merge", ext))
+        else:
+            thinned.append(r)
+    rng.shuffle(later)
     warm = [dict(st) for st in rng.sample(queries, min(len(queries), 6))] if queries else []
     warm += [_q(slot, "get_record", uncps(first[0]["p"])), _q(slot, "expand_pair_all", uncps(first[0]["p"]), "1")]
-    steps = [{"op": "init", "dst": slot, "records": first, "delim": d}] + warm
-    for r in rest:
+    steps = [{"op": "init", "dst": slot, "records": thinned, "delim": d}] + warm
+    for kind, r in later:
+        merge = kind == "merge"
         if r.get("pat") is None and rng.random() < 0.5:
-            steps.append({"op": "add_prefix", "c": slot, "p": r["p"], "u": r["u"], "ps": r["ps"], "us": r["us"]})
+            steps.append({"op": "add_prefix", "c": slot, "p": r["p"], "u": r["u"], "ps": r["ps"], "us": r["us"],
+                          "merge": merge})
         else:
-            steps.append({"op": "add_record", "c": slot, "record": r})
+            steps.append({"op": "add_record", "c": slot, "record": r, "merge": merge})
         if rng.random() < 0.3 and queries:
             steps.append(dict(rng.choice(queries)))
-    return steps + header + queries, "incremental"
+    return steps + header + queries, ("incremental+merge" if len(later) > len(rest) else "incremental")
+
+
+def observe_steps(slot, probes_p=(), probes_u=()):
+    from .common import q as _q
+    steps = [_q(slot, "records"), _q(slot, "get_prefixes", s=True), _q(slot, "get_uri_prefixes", s=True),
+             _q(slot, "prefix_map"), _q(slot, "reverse_prefix_map")]
+    for p in probes_p:
+        steps += [_q(slot, "expand_pair", p, "1"), _q(slot, "standardize_prefix", p)]
+    for u in probes_u:
+        steps += [_q(slot, "compress", u), _q(slot, "standardize_uri", u)]
+    return steps
+
+
+def live_tail(rng, recs, src, derived, redo=()):
+    """History on live objects, appended after the operations under test: the input converter `src` (built from
+    `recs`) keeps being curated -- a merge adds synonyms to one of its records -- and so does each converter in
+    `derived`; after every mutation all converters are observed again, and finally the derivations `redo`
+    (steps writing to fresh slots) are repeated on the curated input.  In the model every derivation copies, so any
+    sharing of records, synonym lists, caches or default arguments between the objects shows as a disagreement.
+    All steps are marked `_tail`."""
+    t = rng.choice(recs)
+    tag = word(rng, 1, 1, syms=["a", "b", "1"])
+    sp, su = "acqS" + tag, "http://acq-src.example/" + tag + "/"
+    dp, du = "acqD" + tag, "http://acq-der.example/" + tag + "/"
+    probes_p = [sp, dp, uncps(t["p"])]
+    probes_u = [su + "1", du + "1", uncps(t["u"]) + "1"]
+    slots = [src] + list(derived)
+    steps = []
+    order = [("src", src)] + [("der", d) for d in derived]
+    rng.shuffle(order)
+    for kind, slot in order:
+        p_, u_ = (sp, su) if kind == "src" else (dp, du)
+        if rng.random() < 0.5:
+            steps.append({"op": "add_prefix", "c": slot, "p": t["p"], "u": t["u"], "ps": [cps(p_)], "us": [cps(u_)],
+                          "merge": True})
+        else:
+            steps.append({"op": "add_record", "c": slot, "merge": True,
+                          "record": rec(uncps(t["p"]), uncps(t["u"]), [p_], [u_])})
+        for s_ in slots:
+            steps += observe_steps(s_, probes_p, probes_u)
+    for st in redo:
+        steps.append(dict(st))
+        steps += observe_steps(st["dst"], probes_p, probes_u)
+    for st in steps:
+        st["_tail"] = True
+    return steps
